@@ -80,6 +80,19 @@ func genCfg(c *core.Ctx, idx int, plans []wl.NamedPlan) wl.Cfg {
 		cfg.Plan = append(append([]mon.Step{}, cfg.Plan...), mon.Step{At: "tW0", Occ: occ, Kind: mon.Sleep, D: d})
 		cfg.PlanKind += fmt.Sprintf("+slow-conn-write#%d", occ)
 	}
+	if cfg.Mode == mon.Sync && rng.Intn(3) == 0 {
+		cfg.NoDeadlines = true
+	}
+	if idx%16 == 5 {
+		// ReadFrom is a low-level write entry point too (one pooled 1024-byte chunk handed over without a copy; also over a
+		// reader that returns its last data together with io.EOF): payloads of at most one chunk, few Ps so that a pooled
+		// buffer put back is the next one taken
+		cfg.Entries = []int{wl.EWrite1, wl.EWritev, wl.ECtxWrite1, wl.ECtxWritev, wl.EWriter, wl.EReadFrom, wl.EReadFromEOF, wl.EReadFromEOF}
+		cfg.Sizes = []int{0, 1, 16, 17, 100, 300, 500, 1023, 1024}
+		cfg.Procs = []int{1, 1, 2}[rng.Intn(3)]
+		cfg.PerWriter = 6 + rng.Intn(12)
+		cfg.PlanKind += "+readfrom"
+	}
 	if idx%16 == 13 {
 		// the write-only buffering wrapper has no lock of its own: it relies on the channel to serialise write+flush.
 		// Several writers, small payloads (they stay in the bufio buffer until the flush), every conn.Write slow.
